@@ -92,6 +92,10 @@ func (c *glCtx) expr(e ast.Expr) string {
 		}
 		if v, ok := o.(*types.Var); ok {
 			if !c.declared[v] {
+				if v.Pkg() != nil && v.Parent() == v.Pkg().Scope() && isErrorType(v.Type()) && c.errData {
+					// a sentinel error of the package (`var ErrNotFound = …`): identified by its name
+					return fmt.Sprintf("(Go.Error.other %q)", v.Name())
+				}
 				if v.Pkg() != nil && v.Parent() == v.Pkg().Scope() {
 					// a package-level byte string with a constant initialiser (`var magic = []byte("…")`)
 					if pp := pkgs[v.Pkg().Path()]; pp != nil {
@@ -194,6 +198,8 @@ func (c *glCtx) expr(e ast.Expr) string {
 		return vals[0]
 	case *ast.CompositeLit:
 		return c.composite(x)
+	case *ast.FuncLit:
+		return c.funcLit(x)
 	}
 	c.fail(e, "expression %T", e)
 	return ""
@@ -574,12 +580,17 @@ func (c *glCtx) callMulti(call *ast.CallExpr, n int) []string {
 		parts = append(parts, c.exprAs(a, sig.Params().At(i).Type()))
 	}
 	nres := resultCount(sig)
-	if glErrData[callee.spec.lean] {
+	calleeErrData := glErrData[callee.spec.lean]
+	sigHasErr := sig.Results().Len() > 0 && isErrorType(sig.Results().At(sig.Results().Len()-1).Type())
+	liftErr, catchErr := false, false
+	if calleeErrData {
 		// the callee returns its error as data
-		if !c.errData {
-			c.fail(call, "call of the errors-as-data function %s outside an errors-as-data function", callee.spec.lean)
-		}
 		nres = sig.Results().Len()
+		if !c.errData && sigHasErr {
+			liftErr = true // monadic caller: a non-nil error value is thrown
+		}
+	} else if c.errData && sigHasErr {
+		catchErr = true // errors-as-data caller of a monadic callee: its Go error comes back as a value
 	}
 	extra := 0
 	if callee.mutRecv {
@@ -592,7 +603,41 @@ func (c *glCtx) callMulti(call *ast.CallExpr, n int) []string {
 		}
 	}
 	extra += len(mutIdx)
+	if catchErr {
+		if extra > 0 {
+			c.fail(call, "errors-as-data call of a monadic function that writes through its arguments")
+		}
+		// (results…, error): a Go error of the callee becomes `Go.Error.other tag` next to zero results
+		var zs []string
+		for i := 0; i < nres; i++ {
+			z, ok := c.g.zero(sig.Results().At(i).Type())
+			if !ok {
+				c.fail(call, "zero value of %s", sig.Results().At(i).Type())
+			}
+			zs = append(zs, z)
+		}
+		t := c.fresh("t")
+		c.emit("let %s ← Go.catchErr (%s) %s", t, strings.Join(parts, " "), tupleTerm(zs))
+		var vals []string
+		if nres == 0 {
+			vals = []string{t + ".2"}
+		} else {
+			vals = append(tupleProj(t+".1", nres), t+".2")
+		}
+		if n >= 0 && n != nres+1 && n != 0 {
+			c.fail(call, "call result arity: have %d want %d", nres+1, n)
+		}
+		return vals
+	}
 	vals := c.bindCall(strings.Join(parts, " "), nres+extra, -1, call)
+	if liftErr {
+		// drop the error value (position nres-1) after throwing it when it is not nil
+		errTerm := vals[nres-1]
+		c.emit("if (%s != Go.Error.nil) then", errTerm)
+		c.emit("  throw (Err.err (Go.Error.tag %s))", errTerm)
+		vals = append(append([]string{}, vals[:nres-1]...), vals[nres:]...)
+		nres--
+	}
 	// write back
 	k := nres
 	if callee.mutRecv {
@@ -777,7 +822,7 @@ func (c *glCtx) stdlib(qn string, call *ast.CallExpr, n int) ([]string, bool) {
 		t := c.fresh("t")
 		c.emit("let %s := Go.uvarint %s", t, c.expr(call.Args[0]))
 		return []string{t + ".1", t + ".2"}, true
-	case "io.ReaderAt.ReadAt":
+	case "io.ReaderAt.ReadAt", "io.SectionReader.ReadAt":
 		// an io.ReaderAt is a function (len, off) ↦ (bytes read, error); the bytes land at the front of the buffer
 		if !c.errData {
 			c.fail(call, "io.ReaderAt.ReadAt outside an errors-as-data function")
@@ -817,6 +862,8 @@ func (c *glCtx) stdlib(qn string, call *ast.CallExpr, n int) ([]string, bool) {
 			return nil, false
 		}
 		return []string{fmt.Sprintf("(Go.Error.is %s %s)", c.expr(call.Args[0]), c.expr(call.Args[1]))}, true
+	case "io.NewSectionReader":
+		return []string{fmt.Sprintf("(Go.sectionReader %s %s %s)", c.expr(call.Args[0]), c.exprAs(call.Args[1], types.Typ[types.Int64]), c.exprAs(call.Args[2], types.Typ[types.Int64]))}, true
 	case "bytes.NewReader":
 		return []string{fmt.Sprintf("(Go.BytesReader.mk %s 0)", c.expr(call.Args[0]))}, true
 	case "bytes.Reader.Len":
@@ -941,4 +988,52 @@ func pkgVarWritten(v *types.Var) string {
 	}
 	pkgVarWrittenCache[v] = where
 	return where
+}
+
+// funcLit: a function literal becomes a let-bound lambda in the monad (`let f : τ := fun a b => do …`).  Captured
+// variables are read, never written (a write is an EXTRACT-FAIL); the literal's own errors travel through the monad.
+func (c *glCtx) funcLit(x *ast.FuncLit) string {
+	sig := c.typeOf(x).(*types.Signature)
+	for o := range assignedObjs(c.p, x.Body) {
+		if lt, ok := c.g.leanTypeOK(o.Type()); ok && lt == "Go.ReaderAt" {
+			continue // a reader is a function value in the model: reading through it does not change it
+		}
+		if c.declared[o] {
+			c.fail(x, "function literal writes the captured variable %s", o.Name())
+		}
+	}
+	c2 := &glCtx{g: c.g, f: c.f, p: c.p, names: c.names, used: c.used, declared: c.declared, fuelName: c.fuelName, loopCtr: c.loopCtr,
+		errData: false, sig: sig, indent: c.indent + 2, tmp: c.tmp + 1000}
+	var ps []string
+	for i := 0; i < sig.Params().Len(); i++ {
+		pv := sig.Params().At(i)
+		c2.declared[pv] = true
+		ps = append(ps, fmt.Sprintf("(%s : %s)", c2.nameOf(pv), c.lt(pv.Type(), x)))
+	}
+	var rts []string
+	for i := 0; i < sig.Results().Len(); i++ {
+		rv := sig.Results().At(i)
+		c2.results = append(c2.results, rv)
+		if c2.monErr(rv.Type()) && i == sig.Results().Len()-1 {
+			continue
+		}
+		rts = append(rts, c.lt(rv.Type(), x))
+	}
+	c2.retType = tupleType(rts)
+	c2.retWrap = func(s string) string { return s }
+	ast.Inspect(x.Body, func(n ast.Node) bool {
+		switch n.(type) {
+		case *ast.ForStmt, *ast.RangeStmt:
+			c.fail(x, "loop inside a function literal")
+		}
+		return true
+	})
+	if !c2.block(x.Body.List) {
+		c2.emitReturn(nil, x)
+	}
+	name := c.fresh("fn")
+	c.emit("let %s : %s := fun %s => do", name, c.lt(sig, x), strings.Join(ps, " "))
+	c.lines = append(c.lines, c2.lines...)
+	c.tmp = c2.tmp
+	return name
 }
